@@ -250,10 +250,15 @@ def gen_hostile_json_ud(rng):
     ch = rng.choice(WEIRD + '\ud83d\udc00\ud83d')          # lone surrogates are the most hostile of them
     doc = {'k' + rng.choice(['', ch]): 'v' + ch + rtext(rng, rng.randrange(0, 6), ALNUM),
            'list': [weird_text(rng, rng.randrange(1, 8), ALNUM + ' ":'), ch * rng.randrange(1, 4)]}
+    if rng.random() < .25:
+        doc['reading'] = 'VERIF-NUMBER'
     try:
         raw = json.dumps(doc, ensure_ascii=rng.random() < .6).encode('utf-8')
     except UnicodeEncodeError:
         raw = json.dumps(doc).encode('utf-8')
+    # numbers no float can hold, and the tokens some writers use for them: text that is JSON to a lenient reader only
+    raw = raw.replace(b'"VERIF-NUMBER"', rng.choice([b'1E400', b'-1e999', b'NaN', b'Infinity', b'-Infinity', b'1E308',
+                                                     b'123456789012345678901234567890', b'0.1E-400']))
     raw += b'\x00' * ((-len(raw)) % 4)
     s.update(kind='UD', comp=[0x20, 0x00], sub=1, payload=list(raw))
     return s
